@@ -1,0 +1,28 @@
+//go:build verif
+
+// Safety-sweep contracts (no explicit panic, index/slice in range, allocation
+// sizes non-negative, wire-decoded pointers checked before use) for functions
+// that need no precondition. Generated from a zero-annotation sweep; checked by
+// /verif/govc. Comment-only file.
+package kex
+
+//@ func kex.DHSession.SetParameter
+//@   props C10(sweep)
+//@   sweep bounds,panic,make,nilmem,div
+
+//@ func kex.ECDHSession.SetParameter
+//@   props C10(sweep)
+//@   sweep bounds,panic,make,nilmem,div
+
+//@ func kex.ECDHSession.UnmarshalCBOR
+//@   props C10(sweep)
+//@   sweep bounds,panic,make,nilmem,div
+
+//@ func kex.OAEPSession.SetParameter
+//@   props C10(sweep)
+//@   sweep bounds,panic,make,nilmem,div
+
+//@ func kex.ecdhSharedSecret
+//@   props C10(sweep)
+//@   sweep bounds,panic,make,nilmem,div
+
